@@ -27,7 +27,7 @@ theorem mem_flatMap_congr {α β} {l l' : List α} (f : α → List β) (h : ∀
 theorem matches_unique {e : Elem} {occs : List Node} (h : Matches e occs) :
     ∀ {e' : Elem} {occs' : List Node}, Matches e' occs' → (∀ o, o ∈ occs ↔ o ∈ occs') → SchemaEq e e' := by
   induction h with
-  | intro e occs htext hattrs hattr_man hnd hnone hman hmulti hsub ih =>
+  | intro e occs htext hattrs hattr_man hnd hnone hman hmulti hlen hpos hsub ih =>
     intro e' occs' h' hmem
     have all_congr : ∀ (P : Node → Prop), (∀ o ∈ occs, P o) ↔ (∀ o ∈ occs', P o) := by
       intro P; constructor
@@ -88,7 +88,7 @@ inductive Grows : Elem → Elem → Prop
 theorem matches_grows {e : Elem} {occs : List Node} (h : Matches e occs) :
     ∀ {e' : Elem} {occs' : List Node}, Matches e' occs' → (∀ o, o ∈ occs → o ∈ occs') → Grows e e' := by
   induction h with
-  | intro e occs htext hattrs hattr_man hnd hnone hman hmulti hsub ih =>
+  | intro e occs htext hattrs hattr_man hnd hnone hman hmulti hlen hpos hsub ih =>
     intro e' occs' h' hsub'
     have key : ∀ k n c, getChild e.children k = some (n, c) → ¬ ∀ o ∈ occs', o.named k = [] := by
       intro k n c hc hall
